@@ -56,7 +56,16 @@ WHAT = {
             ("state-vars", "audited_vars", "pkg_vars", "no package-level state besides the audited selector cache and registries")],
     "C16": [("sanitizer-state", "audited_fields ++ audited_vars", 'by_prefix "sanitize" struct_fields ++ by_prefix "sanitize" pkg_vars', "a Command is its parts and nothing else; package sanitize has no package-level state"),
             ("sanitizer-writes", "audited_writes", 'by_prefix "sanitize" field_writes', "only the lexer states write lexer fields; Sanitize writes no field of the Command")],
-    "C03": [("state-vars", "audited_vars", "pkg_vars", "no package-level state besides the audited registries (no pooled key buffers)")],
+    "C03": [("state-vars", "audited_vars", "pkg_vars", "no package-level state besides the audited registries (no pooled key buffers)"),
+            ("query-fields", "audited_fields", 'by_prefix "genql.Query" struct_fields', "a query carries the audited fields only (no unmodelled memo)")],
+    "C01": [("query-fields", "audited_fields", 'by_prefix "genql.Query" struct_fields', "a query carries the audited fields only (no unmodelled memo of subquery results or literal lists)"),
+            ("state-vars", "audited_vars", "pkg_vars", "no package-level state besides the audited registries")],
+    "C02": [("query-fields", "audited_fields", 'by_prefix "genql.Query" struct_fields', "a query carries the audited fields only"),
+            ("state-vars", "audited_vars", "pkg_vars", "no package-level state besides the audited registries")],
+    "C07": [("query-fields", "audited_fields", 'by_prefix "genql.Query" struct_fields', "a query carries the audited fields only (no unmodelled memo of CTE or subquery results)"),
+            ("state-vars", "audited_vars", "pkg_vars", "no package-level state besides the audited registries")],
+    "C08": [("query-fields", "audited_fields", 'by_prefix "genql.Query" struct_fields', "a query carries the audited fields only (CopyQuery copies what the model copies)"),
+            ("state-vars", "audited_vars", "pkg_vars", "no package-level state besides the audited registries")],
 }
 
 
